@@ -394,26 +394,27 @@ int KSI_BlockSigner_reset(KSI_BlockSigner *signer) {
 		goto cleanup;
 	}
 
-	KSI_Signature_free(signer->signature);
-	signer->signature = NULL;
-
-	KSI_TreeBuilder_free(signer->builder);
-	signer->builder = builder;
-	builder = NULL;
-
 	/* Add the client id handle. Add it first as metadata must be in the first link. */
-	res = KSI_TreeBuilderLeafProcessorList_append(signer->builder->cbList, &signer->metaDataProcessor);
+	res = KSI_TreeBuilderLeafProcessorList_append(builder->cbList, &signer->metaDataProcessor);
 	if (res != KSI_OK) {
 		KSI_pushError(signer->ctx, res, NULL);
 		goto cleanup;
 	}
 
 	/* Add the masking handle. */
-	res = KSI_TreeBuilderLeafProcessorList_append(signer->builder->cbList, &signer->maskingProcessor);
+	res = KSI_TreeBuilderLeafProcessorList_append(builder->cbList, &signer->maskingProcessor);
 	if (res != KSI_OK) {
 		KSI_pushError(signer->ctx, res, NULL);
 		goto cleanup;
 	}
+
+	/* The new builder is complete, nothing may fail from here on: the signer is either left as it was or reset as a whole. */
+	KSI_Signature_free(signer->signature);
+	signer->signature = NULL;
+
+	KSI_TreeBuilder_free(signer->builder);
+	signer->builder = builder;
+	builder = NULL;
 
 	KSI_DataHash_free(signer->prevLeaf);
 	signer->prevLeaf = KSI_DataHash_ref(signer->origPrevLeaf);
